@@ -587,3 +587,40 @@ def is_fee(prog, t):
 
 def treasury_pred(prog):
     return lambda t: loaded_field(prog, t, "config", ["protocol_fee_config", "treasury_address"], "staking")
+
+
+# --------------------------------------------------------------------------- bech32 address validator shape (C13, C14)
+
+
+def address_validator_shape(R, prog, key, rule, tag="address"):
+    """a function (address, prefix) -> Result<Addr>: Ok only if bech32::decode(address) succeeded AND
+    the DECODED human-readable part equals the prefix argument; returns the input string."""
+    c = Ctx(prog.body(key))
+    dec = lambda s: s[0] == "call" and s[1].startswith("bech32::decode") and s[2][0][0] == "param" and s[2][0][1] == 1
+
+    def decoded(t):  # Ok payload of decode, possibly through map_err(..)?
+        if t[0] != "payload":
+            return False
+        c_ = unwrap_payload(t)
+        if c_[0] == "call" and c_[1] == "std::result::Result::map_err":
+            c_ = c_[2][0]
+        return dec(c_)
+
+    G = Guard("decodes", subject=lambda s: dec(s) or (s[0] == "call" and s[1] == "std::result::Result::map_err" and dec(s[2][0])))
+    found = []
+    ok, off = guarded(c, G, prog, 2, found)
+    R.ob(rule, tag + ":decode-must-succeed", ok, "an undecodable address is accepted: %s" % (off,), fn=key, found=found)
+
+    def pfx(t):
+        if t[0] == "call" and t[1] in EQ:
+            a, b_ = t[2]
+            for x, y in ((a, b_), (b_, a)):
+                if x[0] == "field" and x[2] == "0" and decoded(x[1]) and y[0] == "param" and y[1] == 2:
+                    return EQ[t[1]]
+        return None
+
+    found = []
+    ok, off = guarded(c, Guard("prefix", boolean=pfx), prog, 2, found)
+    R.ob(rule, tag + ":prefix-must-match", ok, "an address whose DECODED prefix differs from the expected prefix is accepted (a textual starts_with test is not enough: `osmovaloper1..` starts with `osmo`): %s" % (off,), fn=key, found=found)
+    oks = [e for e in exits(c) if e["kind"] == "ok"]
+    R.ob(rule, tag + ":returns-input", bool(oks) and all(e["term"][3][0][2][0] == "param" and e["term"][3][0][2][1] == 1 for e in oks), "the validated address returned is not the input string", fn=key)
